@@ -92,21 +92,27 @@ impl<T: Comp> AMon<T> {
         if rank(post.state) < rank(pre.state) {
             return err("state-backwards", format!("state moved backwards {:?} -> {:?}", pre.state, post.state));
         }
+        // The position is a `Duration`; what the timeline and the state tests see is an f32 reading of it. The
+        // library's `as_secs_f32` (seconds + nanos/1e9, two roundings) and the correctly rounded reading can
+        // differ by an ulp (e.g. at 9/64 s); both, and anything between them, are readings "to float rounding".
+        // A clause is demanded only where all readings agree.
+        let readings = readings(pre.pos);
+        let (p_min, p_max) = (readings[0] as f64, *readings.last().unwrap() as f64);
         let p = pre.pos.as_secs_f32() as f64;
         // After a hot set_timeline (documented as intentional) the state is carried over. Everything that
         // *happens after the swap* is still judged against the new timeline; only an `Ended` status that
         // was reached under the replaced timeline is stale and not judged (`run_valid == false`).
         if self.run_valid || pre.state != AnimationState::Ended {
             // 4. Waiting only before the delay
-            if post.state == AnimationState::Waiting && !(p < d.delay as f64) {
+            if post.state == AnimationState::Waiting && !(p_min < d.delay as f64) {
                 return err("waiting-after-delay", format!("Waiting at position {p} although the delay is {}", d.delay));
             }
             // 5. Ended exactly when the position has reached the total
             let total = d.total();
-            if post.state == AnimationState::Ended && pre.state != AnimationState::Ended && p < total {
+            if post.state == AnimationState::Ended && pre.state != AnimationState::Ended && p_max < total {
                 return err("ended-early", format!("became Ended at position {p}, total duration {total}"));
             }
-            if p >= total && post.state != AnimationState::Ended {
+            if p_min >= total && post.state != AnimationState::Ended {
                 return err("ended-late", format!("position {p} reached the total {total} but the state is {:?} at the end of the frame", post.state));
             }
             if total.is_infinite() && post.state == AnimationState::Ended {
@@ -123,7 +129,13 @@ impl<T: Comp> AMon<T> {
         if pre.state == AnimationState::Playing {
             let mut t = pre.comp.clone();
             twin.update(&mut t, pre.pos.as_secs_f32());
-            if !same(&t, &post.comp) {
+            let any = same(&t, &post.comp)
+                || readings.iter().any(|r| {
+                    let mut u = pre.comp.clone();
+                    twin.update(&mut u, *r);
+                    same(&u, &post.comp)
+                });
+            if !any {
                 return err("playing-values", format!("Playing at position {:?}: component {:?}, timeline evaluated there gives {:?}", pre.pos, post.comp, t));
             }
         } else if !same(&post.comp, &pre.comp) {
@@ -152,6 +164,20 @@ impl<T: Comp> AMon<T> {
         self.run_valid = true;
         self.ended_in_run = 0;
     }
+}
+
+/// The f32 readings of a position that count as "the position, to float rounding": from the smaller to the
+/// larger of `as_secs_f32()` and the correctly rounded value (usually one and the same number).
+pub fn readings(pos: Duration) -> Vec<f32> {
+    let (a, b) = (pos.as_secs_f32(), pos.as_secs_f64() as f32);
+    let (lo, hi) = (a.min(b), a.max(b));
+    let mut v = vec![lo];
+    let mut x = lo;
+    while x < hi && v.len() < 8 {
+        x = f32::from_bits(x.to_bits() + 1);
+        v.push(x);
+    }
+    v
 }
 
 pub fn events_match(expected: &[AnimationState], observed: &[AnimationState]) -> bool {
